@@ -299,6 +299,58 @@ def r4_backward_movers(ctx, P, D):
     ctx.floor(R, "backward-capable position writes", n, 15)
 
 
+WRAPPER_ADTS = ("without_dealloc::WithoutDealloc<", "without_dealloc::WithoutShrink<")
+REALLOC_METHODS = {"allocate", "deallocate", "grow", "grow_zeroed", "shrink"}
+
+
+def r6_wrapper_surface(ctx, P, R="C13.R6"):
+    ctx.rule(R, "the opt-out wrappers keep the inner allocator's behaviour everywhere except at the promised no-ops: every impl of "
+                "an Allocator trait for WithoutDealloc / WithoutShrink (and for references) overrides allocate, deallocate, grow, "
+                "grow_zeroed and shrink (the trait's provided grow/shrink would move every block: allocate + copy + deallocate); and "
+                "no method of a WithoutDealloc impl reaches the inner deallocate/dealloc, none of a WithoutShrink impl the inner "
+                "shrink/shrink_slice")
+    n = 0
+    for im in P.facts["impls"]:
+        tr = im.get("trait") or ""
+        if not (tr == "alloc::Allocator" or tr.endswith("::Allocator")):
+            continue
+        st = im["self_ty"]
+        if not (st.startswith(WRAPPER_ADTS) or st in ("&A", "&mut A")):
+            continue
+        n += 1
+        have = {i["name"] for i in im["items"]}
+        missing = sorted(REALLOC_METHODS - have)
+        ctx.inst(R, f"impl {tr} for {st}", not missing, "overrides allocate, deallocate, grow, grow_zeroed, shrink" if not missing else
+                 f"does not override {missing}: the trait's provided implementation (allocate + copy + deallocate) is used, so the newest "
+                 "block is moved instead of grown / shrunk in place (and through WithoutDealloc nothing is ever reclaimed)",
+                 where=f"{im.get('file')}:{im.get('line')}", site="overrides the reallocating methods")
+    ctx.floor(R, "Allocator impls of wrappers and references", n, 4)
+    m = 0
+    for im in P.facts["impls"]:
+        st = im["self_ty"]
+        if not st.startswith(WRAPPER_ADTS):
+            continue
+        banned = ("deallocate", "dealloc") if "WithoutDealloc" in st else ("shrink", "shrink_slice")
+        for it in im["items"]:
+            if it["id"] not in P.raw_bodies:
+                continue
+            b = P.body(it["id"])
+            hits = []
+            for s_, t in b.calls():
+                f = t["f"]
+                if f.get("name") in banned and t["args"]:
+                    recv = b.prov_operand(t["args"][0], s_)
+                    if expr_mentions(recv, lambda x: x[0] == "field" and str(x[2]) == "0" and mentions_param(x, 1)):
+                        hits.append((s_, f["name"]))
+            m += 1
+            # the wrapper's own no-op methods may of course be *named* dealloc/shrink; what counts is a call on the inner value
+            ctx.inst(R, b.path, not hits, "does not call the inner allocator's " + "/".join(banned) if not hits else
+                     f"forwards to the inner allocator's `{hits[0][1]}`: the opt-out wrapper reclaims memory after all "
+                     "(allocated bytes decrease although the wrapper promises they never do)", where=b.where(hits[0][0]) if hits else b.where(),
+                     site="no inner " + banned[0], nontrivial=bool(hits))
+    ctx.floor(R, "methods of wrapper impls examined", m, 60)
+
+
 def run(ctx, progs):
     ctx.assume("rustc nightly's type checker, MIR construction and trait resolution are correct")
     ctx.assume("S::DEALLOCATES / S::SHRINKS appear in MIR as unevaluated associated consts of BumpAllocatorSettings (polymorphic MIR)")
@@ -311,4 +363,5 @@ def run(ctx, progs):
         r4_backward_movers(ctx, P, D)
         from . import c01
         c01.r3b_is_last_exact(ctx, P, R="C13.R5")
+        r6_wrapper_surface(ctx, P)
     ctx.config = None
